@@ -8,6 +8,11 @@ CLAIMED = {
   note="Trusted: std::sync::Mutex excludes (a guard's view is stable while held); stub contracts of EventLog::append, the sidecar tail reader and replay_events (cache fidelity is C04/C05); Uuid freshness; rules R1,R2,R9 (format! replaced by an opaque string); stub ContinuityStore struct with the real field names. Not decided: cross-restart histories, session/task stream writers not yet under contract, byte-level interleaving inside EventLog::append.",
   technique="Verus contracts with ghost timeless facts and effect-constraint preconditions on mechanically extracted ContinuityStore writers",
   ref="§4 C01"),
+ 'C13': dict(
+  text="Unbounded deductive proof (Verus/Z3) on the five real path resolvers extracted from /repo on every run (builtins::resolve_path, tasks::logs::resolve_path, Workspace::safe_join, Workspace::to_relative, patch::parse_rel_path): whenever a resolver returns Ok, the input was relative and free of parent-directory segments and the resolved path lies lexically inside the workspace root (root's components followed only by normal names), for every path string. Closure contracts on the ParentDir tests are checked against the closure bodies. A failing obligation is replayed against the real std::path on an enumerated domain of path strings to attach a concrete input. Partial: effect-level obligations on the file-system calls of the tools (every fs call receives a resolved path) are not yet under contract.",
+  note="Trusted: the lexical model of std::path (Unix semantics: components/is_absolute/join/strip_prefix stubs in prelude/path_model.rs), vstd, rules R1,R2,R4,R8. Not decided: symlinks, walkdir/grep internals, Workspace::apply_patch's own fs calls (closures capturing &mut are rejected by Verus), 'a refused request has no side effect' beyond the resolvers being pure, checkpoint id / session id validation on rewind.",
+  technique="Verus contracts over an assumed lexical path model on mechanically extracted resolver functions; closure contracts; native replay for counterexamples",
+  ref="§4 C13"),
  'C20': dict(
   text="Unbounded deductive proof (Verus/Z3) over the real FrameStore code extracted from /repo on every run: representation invariant (1 <= capacity, len <= capacity) after every operation, exact view equation for push (evict-oldest-then-append), and lookup-by-seq returns a frame carrying exactly the requested seq or nothing, for every capacity, push history (gaps, repeats, any order) and queried seq; all arithmetic/index safety obligations discharged. Partial: the 40-arm TuiState::update fold and the CLI renderers are not under contract.",
   note="Trusted: assumed contracts of VecDeque::is_empty/get (assume_specification), vstd's VecDeque/Option specs, a stub Event with the real field names (only `seq` is read), extraction rules R1/R2, Verus+Z3+rustc. Not decided: TuiState::update, render/summary code, determinism beyond 'no clock/RNG stub is called'.",
